@@ -88,6 +88,10 @@ func GenEnv(r *Rng, d *Dump, userFns bool) Env {
 	if r.Chance(1, 6) {
 		e.Ns = append(e.Ns, NsBind{"p", Pick(r, UriPool)})
 	}
+	// prefixes that spell an axis or a node type (grammar productions …ReservedNameConflict…)
+	if r.Chance(1, 3) {
+		e.Ns = append(e.Ns, NsBind{Pick(r, []string{"self", "child", "text", "node", "parent", "ancestor-or-self", "comment", "attribute"}), Pick(r, UriPool)})
+	}
 	uriOf := func() string {
 		if len(e.Ns) > 0 && r.Chance(1, 3) {
 			return Pick(r, e.Ns).Uri
